@@ -140,6 +140,24 @@ func (a asCfg) find(id uint16) *ifc {
 	return nil
 }
 
+// specMAC computes a hop-field MAC from the layout documented in doc/protocols/scion-header
+// ("Hop Field MAC Computation"): 0(16) SegID(16) Timestamp(32) 0(8) ExpTime(8) ConsIngress(16)
+// ConsEgress(16) 0(16); the first 6 bytes of the MAC over that block.  Written independently of
+// path.MACInput on purpose.
+func specMAC(h hash.Hash, segID uint16, ts uint32, exp uint8, in, eg uint16) [path.MacLen]byte {
+	var b [16]byte
+	b[2], b[3] = byte(segID>>8), byte(segID)
+	b[4], b[5], b[6], b[7] = byte(ts>>24), byte(ts>>16), byte(ts>>8), byte(ts)
+	b[9] = exp
+	b[10], b[11] = byte(in>>8), byte(in)
+	b[12], b[13] = byte(eg>>8), byte(eg)
+	h.Reset()
+	_, _ = h.Write(b[:])
+	var m [path.MacLen]byte
+	copy(m[:], h.Sum(nil))
+	return m
+}
+
 func main() {
 	e := vlib.Init()
 	e.Rule = "chains of 1-5 ASes extending one beacon with the real DefaultExtender: per AS random key, MTU (rarely 0), " +
@@ -315,7 +333,7 @@ func main() {
 				out, tag = "panic", "panic"
 				e.Violate("C23/panic", "Extend panicked", replay)
 			case xerr != nil && appended:
-				out, tag = "erra", "err-after-append"
+				out, tag = "err", "err-after-append"
 			case xerr != nil:
 				out, tag = "err", "err"
 			default:
@@ -402,16 +420,14 @@ func main() {
 			for j, ej := range pseg.ASEntries {
 				h := cfgs[j].macFactory(aes)()
 				hf := ej.HopEntry.HopField
-				want := path.MAC(h, path.InfoField{SegID: beta, Timestamp: uint32(tsSec)},
-					path.HopField{ExpTime: hf.ExpTime, ConsIngress: hf.ConsIngress, ConsEgress: hf.ConsEgress}, nil)
+				want := specMAC(h, beta, uint32(tsSec), hf.ExpTime, hf.ConsIngress, hf.ConsEgress)
 				if want != hf.MAC {
 					bad("hop-mac", fmt.Sprintf("hop field MAC of entry %d does not verify with the accumulated segment id", j))
 				}
 				beta ^= binary.BigEndian.Uint16(hf.MAC[:2])
 				for k, p := range ej.PeerEntries {
 					pf := p.HopField
-					wantP := path.MAC(h, path.InfoField{SegID: beta, Timestamp: uint32(tsSec)},
-						path.HopField{ExpTime: pf.ExpTime, ConsIngress: pf.ConsIngress, ConsEgress: pf.ConsEgress}, nil)
+					wantP := specMAC(h, beta, uint32(tsSec), pf.ExpTime, pf.ConsIngress, pf.ConsEgress)
 					if wantP != pf.MAC {
 						bad("peer-mac", fmt.Sprintf("peer hop field %d of entry %d does not verify", k, j))
 					}
